@@ -1015,10 +1015,9 @@ class BaseGaussianState(BaseState):
         self._alpha = self._mu[: self._modes] + 1j * self._mu[self._modes :]
         self._alpha /= np.sqrt(2 * self._hbar)
 
-        self._pure = (
-            np.abs(np.linalg.det(self._cov) - (self._hbar / 2) ** (2 * self._modes))
-            < self.EQ_TOLERANCE
-        )
+        # purity is a property of the state, not of the units: test the covariance matrix in
+        # units of hbar/2 (in these units a pure state has determinant 1 for any hbar)
+        self._pure = np.abs(np.linalg.det(self._data[1]) - 1) < self.EQ_TOLERANCE
 
         self._basis = "gaussian"
         self._str = "<GaussianState: num_modes={}, pure={}, hbar={}>".format(
@@ -1350,9 +1349,7 @@ class BaseGaussianState(BaseState):
         mu, cov = self.reduced_gaussian(modes)  # pylint: disable=unused-variable
 
         # the reduced state of a pure state is in general mixed
-        reduced_is_pure = (
-            np.abs(np.linalg.det(cov) - (self._hbar / 2) ** (2 * len(modes))) < self.EQ_TOLERANCE
-        )
+        reduced_is_pure = np.abs(np.linalg.det(cov / (self._hbar / 2)) - 1) < self.EQ_TOLERANCE
 
         if self.is_pure and reduced_is_pure:
             psi = twq.state_vector(
